@@ -537,7 +537,10 @@ class SCML_Supervised(_BaseSCML, TransformerMixin):
     """
     X, y = self._prepare_inputs(X, y, ensure_min_samples=2)
 
-    basis, n_basis = self._initialize_basis_supervised(X, y)
+    # points with a negative label are unlabeled: like the triplets, the
+    # supervised basis is built from the labeled points only
+    known = y >= 0
+    basis, n_basis = self._initialize_basis_supervised(X[known], y[known])
 
     if not isinstance(self.k_genuine, int):
       raise ValueError("k_genuine should be an integer, instead it is of type"
